@@ -19,6 +19,16 @@ real code, against a boring reference model (plain Python: controller name -> in
                 configuration s (the full product of hidden state x argument).
  part 'chains'  every operator history of depth 2 (quick) / 3 (thorough) from every configuration, real
                 object vs reference model at every step, states reached by different paths compared.
+ part 'confobj' histories on ONE Configuration object: every way of obtaining it (empty, constructor from a list /
+                generator, from_dict, from_string, from_tuple_of_configurations, current_configuration(), result
+                of an operator) x every configuration x every listing order, followed by 1 (2, 3 with a reduced
+                order alphabet) assignments of the public `selections` property with every configuration in
+                every listing order.  After the history every identifier observer (get_string_id, string_id,
+                str), ==/hash against freshly built configurations of the whole product, the round trip through
+                from_string, get_selection, membership in set_of_configurations(), configure_catalogs with that
+                object, sets of such objects (size, equality with the product, iteration over them and over
+                every pair) and every operator applied to them must agree with the reference model of the LAST
+                assignment.
 """
 from __future__ import annotations
 
@@ -38,8 +48,11 @@ TECHNIQUE = ('explicit-state exploration of the configuration graph of 16 (+1 in
 RULE = ('one case per (structure, configuration, listing order) identifier check, per (structure, configuration, '
         'entry point, parameter point) evaluation against the hand-written formula, per visited element of an '
         'iteration, and per operator application (structure, hidden state, argument configuration, operator, step, '
-        'random answer tape / history). Non-trivial: evaluations always; identifier checks whose listing order is '
-        'not the canonical one; operator applications that change the configuration. distinct = distinct such keys.')
+        'random answer tape / history), and per history on one Configuration object (way of obtaining it, its '
+        'configuration and listing order, the assigned configurations and their listing orders). Non-trivial: '
+        'evaluations always; identifier checks whose listing order is '
+        'not the canonical one; operator applications that change the configuration; Configuration-object histories '
+        'whose last assignment changes the configuration or lists it in a non-canonical order. distinct = distinct such keys.')
 ASSUMPTIONS = [
     'names of controllers, catalogs and members do not contain the reserved characters ";" and ":" and catalog '
     'names are unique in a formula (the library reserves / requires this)',
@@ -1032,7 +1045,7 @@ class Real:
 
 
 # =========================================================================== tasks
-PARTS = ('static', 'ops', 'hidden', 'chains')
+PARTS = ('static', 'ops', 'hidden', 'chains', 'confobj')
 # clauses about the state of the real object in a configuration (however it was reached)
 STATE_CLAUSES = {'value-differs-from-hand-written', 'signature-differs-from-hand-written',
                  'formula-text-differs-from-hand-written', 'catalog-not-on-the-member-of-its-controller',
@@ -1064,6 +1077,16 @@ def tasks(tier, seed):
                 plans = [(2, [1, 2]), (3, [1])] if len(sp.names) >= 3 else [(3, [1, 2]), (4, [1])]
             for depth, steps in plans:
                 t.append(dict(part='chains', st=st['name'], seed=seed, tier=tier, start=cid, depth=depth, steps=steps))
+    # histories on one Configuration object: depth 1 over the full alphabet (one task per way of obtaining the object);
+    # depth 2 (thorough: and 3 for products of at most 6 configurations) with the reduced alphabet CONF_DEEP_STARTS x
+    # {first, last} listing order
+    for st in sts:
+        for kind in CONF_STARTS:
+            t.append(dict(part='confobj', st=st['name'], seed=seed, tier=tier, kinds=[kind], depth=1))
+    for st in sts:
+        t.append(dict(part='confobj', st=st['name'], seed=seed, tier=tier, kinds=list(CONF_DEEP_STARTS), depth=2))
+        if tier == 'thorough' and RefSpace(st).size() <= 6:
+            t.append(dict(part='confobj', st=st['name'], seed=seed, tier=tier, kinds=list(CONF_DEEP_STARTS), depth=3))
     return t
 
 
@@ -1093,6 +1116,8 @@ def run_task(task, _raw=False):
                 _hidden(task, st, space, rec, vio_factory)
             elif task['part'] == 'chains':
                 _chains(task, st, space, rec, vio_factory)
+            elif task['part'] == 'confobj':
+                _confobj(task, st, space, rec)
         except Exception as e:
             # every input of this driver is valid: an exception raised by library code is an observed outcome
             if not library_raised(e):
@@ -1594,6 +1619,247 @@ def _chains(task, st, space, rec, vio_factory):
             f'{sorted(seen_canon)}; model requires {sorted(required)} and allows {sorted(allowed)}',
             sorted(required), sorted(seen_canon))
     rec.count('chain_tasks_reaching_the_whole_product', int(set(seen_canon) == idset))
+
+
+# --------------------------------------------------------------------------- part 'confobj'
+# ways of obtaining a Configuration object (the start of a history on that one object)
+CONF_STARTS = ('empty', 'list', 'gen', 'dict', 'str', 'merge', 'current', 'op')
+CONF_DEEP_STARTS = ('empty', 'list', 'current')          # reduced alphabet of the histories of depth >= 2
+_CONF_GROUP = {'empty': 'empty', 'current': 'library-made', 'op': 'library-made'}   # others: 'constructed'
+
+
+class _Failed:
+    """An observer of a valid Configuration object raised."""
+
+    def __init__(self, exc):
+        self.text = f'<{type(exc).__name__}: {exc}>'
+
+    def __repr__(self):
+        return self.text
+
+    def __eq__(self, other):
+        return False
+
+    def __ne__(self, other):
+        return True
+
+    __hash__ = None
+
+
+def _grab(fn):
+    try:
+        return fn()
+    except Exception as e:  # the object is valid: whatever an observer raises is an observation
+        return _Failed(e)
+
+
+def _confobj(task, st, space, rec):
+    """Histories on one Configuration object; the reference model of the object is the LAST assignment."""
+    from biogeme.configuration import Configuration, SelectionTuple
+    from biogeme.expressions import SelectedExpressionsIterator
+
+    seed = task['seed']
+    depth = task['depth']
+    real = Real(st, space, seed)
+    expr = real.expr
+    expr.set_central_controller()
+    ops = expr.central_controller.prepare_operators()
+    ids = space.all_ids()
+    n = len(ids)
+    pairs_of = [[(c, space.ctrl[c][ch[c]]) for c in space.names] for ch in space.configs]
+    perms_of = [list(itertools.permutations(p)) for p in pairs_of]
+    nperm = len(perms_of[0])
+    reduced = sorted({0, nperm - 1})
+    ref = [Configuration.from_string(cid) for cid in ids]      # never assigned to
+    all_set = expr.set_of_configurations()
+    case = {k: v for k, v in task.items() if k != 'fresh'}
+    opnames = [o for o in sorted(ops) if o in set(space.operator_names())]
+
+    def cvio(clause, what, expected, observed, pattern):
+        # the behaviour of a Configuration object does not depend on the formula: the key names the history pattern only
+        key = f'C16|{clause}|Configuration-object:{pattern}'
+        rec.violation(key, f'[{st["name"]}, seed {seed}] {what}', dict(case, key=key), expected=expected, observed=observed)
+
+    def tuples(perm):
+        return [SelectionTuple(controller=c, selection=s) for c, s in perm]
+
+    def make(kind, ai, pi):
+        perm = perms_of[ai][pi]
+        if kind == 'empty':
+            return Configuration()
+        if kind == 'list':
+            return Configuration(tuples(perm))
+        if kind == 'gen':
+            return Configuration(tp for tp in tuples(perm))
+        if kind == 'dict':
+            return Configuration.from_dict(dict(perm))
+        if kind == 'str':
+            return Configuration.from_string(SEP.join(f'{c}{SELSEP}{s}' for c, s in perm))
+        if kind == 'merge':
+            return Configuration.from_tuple_of_configurations(tuple(Configuration.from_dict({c: s}) for c, s in perm))
+        if kind == 'current':
+            expr.configure_catalogs(ref[ai])
+            return expr.current_configuration()
+        if kind == 'op':
+            return ops[f'Increase {space.names[0]}'](ref[ai], 0)[0]
+        raise KeyError(kind)
+
+    def starts(kind, deep):
+        """(configuration index, listing order index) of the start objects of one kind."""
+        if kind == 'empty':
+            return [(0, 0)]
+        if kind == 'op' and f'Increase {space.names[0]}' not in ops:
+            rec.count('confobj_start_unavailable')      # the menu of operators is checked by the other parts
+            return []
+        if kind in ('current', 'op'):
+            return [(ai, 0) for ai in range(n)]
+        return [(ai, pi) for ai in range(n) for pi in (reduced if deep else range(nperm))]
+
+    def history(kind, ai, pi, assigns):
+        conf = make(kind, ai, pi)
+        if kind in ('current', 'op') and _grab(conf.get_string_id) != ids[ai]:
+            return None                                  # reported by the parts 'static' / 'ops'
+        for bi, qi in assigns:
+            conf.selections = tuples(perms_of[bi][qi])
+            rec.transition()
+        return conf
+
+    def pattern_of(kind, nassign):
+        return f'{_CONF_GROUP.get(kind, "constructed")}+selections-{"assigned" if nassign == 1 else "reassigned"}'
+
+    def describe(kind, ai, pi, assigns):
+        head = 'Configuration()' if kind == 'empty' else f'{kind}:{[c for c, _ in perms_of[ai][pi]]}->{ids[ai]!r}'
+        return head + ''.join(f' ; selections = {list(perms_of[bi][qi])}' for bi, qi in assigns)
+
+    def check(conf, bi, pattern, text, consume):
+        """The object must be the configuration #bi, for every observer."""
+        cid = ids[bi]
+        want_sel = sorted(pairs_of[bi])
+        ok = True
+        got = [_grab(conf.get_string_id), _grab(lambda: conf.string_id), _grab(lambda: str(conf))]
+        sel = _grab(lambda: [tuple(s_) for s_ in conf.selections])
+        if any(g != cid for g in got) or sel != want_sel:
+            ok = False
+            cvio('identifier-depends-on-listing-order-or-is-not-canonical',
+                 f'after {text}: get_string_id() / string_id / str() = {got}, selections {sel}; expected {cid!r}', cid,
+                 repr(got), pattern)
+        eq = _grab(lambda: (conf == ref[bi], ref[bi] == conf, hash(conf) == hash(ref[bi])))
+        if eq != (True, True, True):
+            ok = False
+            cvio('equal-configurations-compare-or-hash-unequal',
+                 f'after {text}: (object == fresh, fresh == object, equal hashes) = {eq} for the freshly built {cid!r}',
+                 (True, True, True), repr(eq), pattern)
+        same = [ids[i] for i in range(n) if i != bi and _grab(lambda: (conf == ref[i]) or (ref[i] == conf)) is not False]
+        if same:
+            ok = False
+            cvio('identifier-not-unique', f'after {text}: the object ({cid!r}) compares equal to the different configurations {same}',
+                 [], same, pattern)
+        back = _grab(lambda: Configuration.from_string(str(conf)))
+        if isinstance(back, _Failed) or _grab(lambda: back == conf) is not True or back.get_string_id() != cid \
+                or [tuple(s_) for s_ in back.selections] != want_sel:
+            ok = False
+            cvio('identifier-does-not-convert-back',
+                 f'after {text}: from_string(str(object)) = {back!r} (str(object) = {_grab(lambda: str(conf))!r}); expected {cid!r}',
+                 cid, repr(back), pattern)
+        for c, s_ in pairs_of[bi]:
+            if _grab(lambda: conf.get_selection(c)) != s_:
+                ok = False
+                cvio('get-selection-wrong', f'after {text}: get_selection({c!r}) = {_grab(lambda: conf.get_selection(c))!r}', s_,
+                     None, pattern)
+        if consume:
+            if all_set is not None and _grab(lambda: conf in all_set) is not True:
+                ok = False
+                cvio('equal-configurations-compare-or-hash-unequal',
+                     f'after {text}: the object is not found in set_of_configurations()', True, False, pattern)
+            expr.configure_catalogs(conf)
+            real.check_state(cid, None, rec, lambda clause, what, e=None, o=None, witness=None:
+                             cvio(clause, f'after {text}, configure_catalogs(object): {what}', e, o, pattern), 0)
+            rec.state((st['name'], cid))
+        return ok
+
+    def visit(confs, want_ids, label, text, pattern):
+        visited = []
+        for _ in SelectedExpressionsIterator(expr, confs):
+            visited.append(real.cheap_state()[0])
+            if len(visited) > 4 * n + 4:
+                break
+        ok = sorted(visited) == sorted(want_ids)
+        rec.case(('cobj-iter', st['name'], label), (label, sorted(visited)), outcome=('cobj-iter', ok))
+        if not ok:
+            cvio('iteration-does-not-visit-every-configuration-exactly-once',
+                 f'{text}: iteration over the set of these {len(want_ids)} objects visited {sorted(visited)}; expected '
+                 f'{sorted(want_ids)}', sorted(want_ids), sorted(visited), pattern)
+
+    nhist = 0
+    for kind in task['kinds']:
+        deep = depth >= 2
+        pattern = pattern_of(kind, depth)
+        orders = reduced if deep else list(range(nperm))
+        alphabet_ = [(bi, qi) for bi in range(n) for qi in orders]
+        for ai, pi in starts(kind, deep):
+            # ---- every history of exactly `depth` assignments (shorter ones are the tasks of smaller depth)
+            for assigns in itertools.product(alphabet_, repeat=depth):
+                conf = history(kind, ai, pi, assigns)
+                if conf is None:
+                    rec.count('confobj_start_not_as_expected')
+                    break
+                bi, qi = assigns[-1]
+                prev = assigns[-2][0] if depth >= 2 else (ai if kind != 'empty' else None)
+                nontrivial = (prev != bi) or qi != 0
+                text = describe(kind, ai, pi, assigns)
+                ok = check(conf, bi, pattern, text, consume=(qi in reduced))
+                nhist += 1
+                rec.case(('cobj', st['name'], kind, ai, pi, assigns) if nontrivial else None,
+                         (kind, ai, pi, assigns, _grab(lambda: str(conf))), outcome=('cobj', kind, depth, ok))
+            # ---- families: one object per configuration of the product, all with the same past
+            if pi not in reduced:
+                continue
+            prefixes = [()] if depth == 1 else [tuple((ai2, pi) for _ in range(depth - 1))
+                                                for ai2 in sorted({0, n - 1, ai})]
+            for prefix in prefixes:
+                objs = [history(kind, ai, pi, prefix + ((bi, (bi + pi) % nperm),)) for bi in range(n)]
+                if any(o is None for o in objs):
+                    break
+                text = f'{n} objects [{describe(kind, ai, pi, prefix)} ; selections = <each configuration of the product>]'
+                the_set = _grab(lambda: set(objs))
+                size = None if isinstance(the_set, _Failed) else len(the_set)
+                rec.case(('cobj-set', st['name'], kind, ai, pi, prefix), (kind, ai, pi, prefix, size), outcome=('cobj-set', size == n))
+                if size != n:
+                    cvio('identifier-not-unique', f'{text}: a set of them has {size} elements, the product has {n} configurations',
+                         n, size, pattern)
+                elif all_set is not None and the_set != all_set:
+                    cvio('equal-configurations-compare-or-hash-unequal', f'{text}: the set differs from set_of_configurations()',
+                         sorted(ids), sorted(str(o) for o in the_set), pattern)
+                if isinstance(the_set, _Failed):
+                    continue
+                visit(the_set, ids, (kind, ai, pi, prefix, 'all'), text, pattern)
+                if ai == 0:
+                    for i, j in itertools.combinations(range(n), 2):
+                        pair = _grab(lambda: {objs[i], objs[j]})
+                        if not isinstance(pair, _Failed):
+                            visit(pair, [ids[i], ids[j]], (kind, ai, pi, prefix, i, j),
+                                  f'the two objects of [{text}] for {ids[i]!r} and {ids[j]!r}', pattern)
+                # every operator applied to such an object
+                if ai in (0, n - 1) and pi == reduced[-1]:
+                    for bi, obj in enumerate(objs):
+                        for opname in opnames:
+                            desc = space.op_desc(opname)
+                            for picked, tape, res in all_answers(lambda: ops[opname](obj, 1)[0].get_string_id()):
+                                rec.transition()
+                                accept = [space.cid(c) for c in space.apply(space.configs[bi], desc, 1, picked)]
+                                good = not isinstance(res, Raised) and res in accept
+                                rec.case(('cobj-op', st['name'], kind, ai, prefix, bi, opname, tape) if good and res != ids[bi] else None,
+                                         (kind, ai, bi, opname, tape, getattr(res, 'text', res)), outcome=('cobj-op', good))
+                                if not good:
+                                    cvio('operator-result-differs-from-model',
+                                         f'after {describe(kind, ai, pi, prefix + ((bi, (bi + pi) % nperm),))}: {opname}(object, 1, '
+                                         f'random answer {picked}) = {getattr(res, "text", res)!r}; reference model {accept}',
+                                         accept, getattr(res, 'text', res), pattern)
+                        if _grab(obj.get_string_id) != ids[bi]:
+                            cvio('operator-alters-its-argument', f'operators changed their argument {ids[bi]!r} into '
+                                 f'{_grab(obj.get_string_id)!r}', ids[bi], repr(_grab(obj.get_string_id)), pattern)
+    rec.sample(dict(part='confobj', structure=st['name'], kinds=task['kinds'], depth=depth, histories=nhist,
+                    configurations=n, listing_orders=nperm))
 
 
 def on_abort(task, info):
